@@ -26,6 +26,9 @@ enum Op {
     DecLen(u64),
     UnsetLen,
     Reset,
+    /// reset_eta() / reset_elapsed(): clocks only, the position history is untouched
+    ResetEta,
+    ResetElapsed,
     Finish,
     FinishClear,
     Abandon,
@@ -47,6 +50,8 @@ fn op_class(op: &Op) -> &'static str {
         Op::DecLen(_) => "dec_length",
         Op::UnsetLen => "unset_length",
         Op::Reset => "reset",
+        Op::ResetEta => "reset_eta",
+        Op::ResetElapsed => "reset_elapsed",
         Op::Finish => "finish",
         Op::FinishClear => "finish_and_clear",
         Op::Abandon => "abandon",
@@ -99,7 +104,7 @@ fn sequential_case(seed: u64, idx: u64) -> CaseOut {
             6 => Op::IncLen(rng.u64_biased()),
             7 => Op::DecLen(rng.u64_biased()),
             8 => Op::UnsetLen,
-            9 => Op::Reset,
+            9 => rng.pick(&[Op::Reset, Op::Reset, Op::ResetEta, Op::ResetElapsed]).clone(),
             10 => rng.pick(&[Op::Finish, Op::FinishClear, Op::Abandon, Op::FinishStyle, Op::FinishStyle]).clone(),
             11 => Op::UpdateSetPos(rng.u64_biased()),
             12 => Op::UpdateSetLen(rng.u64_biased()),
@@ -135,7 +140,7 @@ fn sequential_case(seed: u64, idx: u64) -> CaseOut {
                 }
                 finished = true;
             }
-            Op::Tick => {}
+            Op::Tick | Op::ResetEta | Op::ResetElapsed => {}
             Op::Advance(ns) => {
                 clock.fetch_add(*ns, Ordering::SeqCst);
             }
@@ -159,6 +164,8 @@ fn sequential_case(seed: u64, idx: u64) -> CaseOut {
                 Op::DecLen(d) => pb.dec_length(*d),
                 Op::UnsetLen => pb.unset_length(),
                 Op::Reset => pb.reset(),
+                Op::ResetEta => pb.reset_eta(),
+                Op::ResetElapsed => pb.reset_elapsed(),
                 Op::Finish => pb.finish(),
                 Op::FinishClear => pb.finish_and_clear(),
                 Op::Abandon => pb.abandon(),
@@ -459,7 +466,7 @@ pub fn run(cfg: &RunCfg) -> PropResult {
     };
     PropResult {
         report,
-        rule: "sequential evaluations: 3-40 operations (inc/dec/set_position/set_length/inc_length/dec_length/unset_length/reset/finish*/abandon/finish_using_style (every ProgressFinish, repeatedly)/update(set_pos|set_len)/tick, virtual time passing) with boundary-biased u64 arguments on hidden and visible bars, issued through the handle itself, clones and handles upgraded from WeakProgressBar, getters and fraction compared with a wrapping/saturating model after every step; concurrent evaluations: 2-16 OS threads x 1-3 clones x 100-100000 inc/dec calls on one bar (hidden, unlimited and 20 Hz spy targets, optional 1 ms steady ticker), conservation of the wrapping sum after join and monotone reads in inc-only runs; 2-8 threads x 100-20000 inc_length/dec_length calls (optionally one unset_length), final length = initial + sum of deltas (or unknown), monotone length reads in inc-only runs; distinct = operation list hash / run parameters".into(),
+        rule: "sequential evaluations: 3-40 operations (inc/dec/set_position/set_length/inc_length/dec_length/unset_length/reset/reset_eta/reset_elapsed/finish*/abandon/finish_using_style (every ProgressFinish, repeatedly)/update(set_pos|set_len)/tick, virtual time passing) with boundary-biased u64 arguments on hidden and visible bars, issued through the handle itself, clones and handles upgraded from WeakProgressBar, getters and fraction compared with a wrapping/saturating model after every step; concurrent evaluations: 2-16 OS threads x 1-3 clones x 100-100000 inc/dec calls on one bar (hidden, unlimited and 20 Hz spy targets, optional 1 ms steady ticker), conservation of the wrapping sum after join and monotone reads in inc-only runs; 2-8 threads x 100-20000 inc_length/dec_length calls (optionally one unset_length), final length = initial + sum of deltas (or unknown), monotone length reads in inc-only runs; distinct = operation list hash / run parameters".into(),
         exhaustive: false,
     }
 }
